@@ -8,7 +8,7 @@ from props.common import account, diff_run
 
 COARS = ac.COARSENINGS
 DRIVERS = ["amgd_%s@poison" % c for c in COARS] + ["amg_%s@poison" % c for c in COARS] + ["amgd_%s@asan" % c for c in COARS] + \
-          ["own", "own@asan", "ll2", "ll2@poison", "ll2@asan"]
+          ["own", "own@asan", "ll2", "ll2@poison", "ll2@asan", "ub@poison"]
 EXTRA_FLAGS = {"@poison": ["-DVQ_POISON"],
                "@asan": ["-fsanitize=address,undefined", "-fno-sanitize-recover=all", "-fno-omit-frame-pointer", "-g"],
                "own@asan": ["-DOWN_NO_TRACKER"]}
@@ -351,6 +351,71 @@ def run_ll2(ctx, lines):
         f["site"] = "ll2/" + kern(f["case"]); f.setdefault("build", "exact"); f["input_class"] = f["case"].split(" ", 2)[1]
     return fails
 
+# ------------------------------------------------------------------ C10: uninitialised output buffers
+UB_RELAX = ["damped_jacobi", "spai0", "spai1", "gauss_seidel", "ilu0", "iluk", "ilup", "ilut", "chebyshev"]
+UB_AMG = [("smoothed_aggregation", "spai0"), ("smoothed_aggregation", "spai1"), ("aggregation", "damped_jacobi"),
+          ("ruge_stuben", "gauss_seidel"), ("smoothed_aggr_emin", "ilu0"), ("aggregation", "chebyshev")]
+UB_FILLS = ["00", "FF", "AA", "rand"]
+
+def ub_cases(tier, seed):
+    """write-only outputs handed over unwritten (numa_vector(n, false) under the poisoning allocator)"""
+    from vcheck import fmt_vec
+    r = random.Random(seed * 1000 + 310)
+    out = []; k = 0
+    def add(s):
+        nonlocal k
+        out.append("U%d %s" % (k, s)); k += 1
+    def rv(n): return [F(r.randint(-9, 9), r.choice([1, 1, 2, 4])) for _ in range(n)]
+    N = 40 if tier == "quick" else 400
+    for _ in range(N):
+        n = r.choice([1, 2, 3, 5, 9, 17]); m = r.choice([1, 2, 4, 9])
+        rows = _rrows(r, n, m, r.choice([2, 4]), False)
+        add("ub_spmv %s %s %s" % (fmt_q(F(r.randint(-3, 3), 2)), _crs(n, m, rows), fmt_vec(rv(m))))
+        add("ub_residual %s %s %s" % (fmt_vec(rv(n)), _crs(n, m, rows), fmt_vec(rv(m))))
+        add("ub_copy %s" % fmt_vec(rv(n)))
+        add("ub_clear %d" % n)
+        add("ub_axpby %s %s" % (fmt_q(F(r.randint(-3, 3), 2)), fmt_vec(rv(n))))
+        add("ub_axpbypcz %s %s %s %s" % (fmt_q(F(r.randint(-3, 3))), fmt_vec(rv(n)), fmt_q(F(r.randint(-3, 3))), fmt_vec(rv(n))))
+        add("ub_vmul %s %s %s" % (fmt_q(F(r.randint(-3, 3))), fmt_vec(rv(n)), fmt_vec(rv(n))))
+    N = 12 if tier == "quick" else 60
+    for i in range(N):
+        for rx in UB_RELAX:
+            n = r.choice([1, 2, 3, 6, 12, 25])
+            rows = gen.spd_mmatrix(r, n) if r.random() < 0.7 else gen.nonsym_dd(r, n, density=min(0.5, 3.0 / n))
+            add("ub_asprec %s %s %s" % (rx, _crs(n, n, rows), fmt_vec(rv(n))))
+    N = 8 if tier == "quick" else 40
+    for i in range(N):
+        for co, rx in UB_AMG:
+            n = r.choice([3, 6, 12, 25, 40])
+            rows = gen.spd_mmatrix(r, n, kind=r.choice(["path", "grid"])) if r.random() < 0.5 else gen.spd_mmatrix(r, n)
+            add("ub_amg %s %s %d %s %s" % (co, rx, r.choice([1, 1, 2]), _crs(n, n, rows), fmt_vec(rv(n))))
+    return out
+
+def run_ub(ctx, lines):
+    res = {}
+    for fl in UB_FILLS:
+        res[fl] = ctx["run_driver"](ctx["cpp"]["ub@poison"], lines, env_extra={"VQ_POISON_FILL": fl}, shards=8, timeout=1500)
+    def nontrivial(op, payload, impl_out):
+        return impl_out is not None and impl_out.startswith("[") and bool(impl_out.replace("0", "").replace("[", "").replace("]", "").strip())
+    account(ctx, lines, res[UB_FILLS[0]], nontrivial)
+    fails = []
+    for l in lines:
+        cid, op = l.split(" ", 2)[:2]
+        outs = [res[fl].get(cid) for fl in UB_FILLS]
+        ctx["stats"]["oracle_checks"] += 1
+        site = "ub/" + op[3:] + ("/" + l.split(" ", 4)[2] if op == "ub_asprec" else "/" + "+".join(l.split(" ", 4)[2:4]) if op == "ub_amg" else "")
+        if any(o is None or o.startswith(("CRASH", "UNSUPPORTED")) for o in outs):
+            fails.append(dict(kind="counterexample", case=l, impl=str(outs)[:1500], model=None, op=op, size=len(l), build="ub-poison", site=site,
+                              input_class="uninitialised-output", theorem="C10: crash with an unwritten output buffer (fills %s)" % UB_FILLS))
+        elif len(set(outs)) != 1:
+            j = next(i for i in range(1, len(outs)) if outs[i] != outs[0])
+            fails.append(dict(kind="counterexample", case=l, impl=outs[j][:1500], model=outs[0][:1500], op=op, size=len(l), build="ub-poison", site=site,
+                              input_class="uninitialised-output",
+                              theorem="C10: a write-only output depends on what the unwritten buffer held (bit patterns differ, heap fill %s vs %s)" % (UB_FILLS[j], UB_FILLS[0])))
+    return fails
+
+def _is_ub(l): return l.split(" ", 2)[1:2] and l.split(" ", 2)[1].startswith("ub_")
+
 def _is_ll2(l): return l.split(" ", 2)[1:2] and l.split(" ", 2)[1].startswith(("ll_", "lld_"))
 
 def run(ctx, cases_override=None):
@@ -360,9 +425,13 @@ def run(ctx, cases_override=None):
     ll2_override = [l for l in (cases_override or []) if _is_ll2(l)]
     if cases_override and len(ll2_override) == len(cases_override):
         return run_ll2(ctx, ll2_override)
+    ub_override = [l for l in (cases_override or []) if _is_ub(l)]
+    if cases_override and len(ub_override) == len(cases_override):
+        return run_ub(ctx, ub_override)
     own_fails = [] if cases_override else run_own(ctx, own_cases(ctx["tier"], ctx["seed"]))
     ll2_fails = [] if cases_override else run_ll2(ctx, ll2_cases(ctx["tier"], ctx["seed"]))
-    return own_fails + ll2_fails + run_amg(ctx, cases_override)
+    ub_fails = [] if cases_override else run_ub(ctx, ub_cases(ctx["tier"], ctx["seed"]))
+    return own_fails + ll2_fails + ub_fails + run_amg(ctx, cases_override)
 
 def run_amg(ctx, cases_override=None):
     cases = make_cases(ctx["tier"], ctx["seed"])
